@@ -40,7 +40,7 @@ STUBS = ['open in dd._copy -> in-memory text file', 'dd._copy._open_shelf -> a d
          'os.makedirs / shutil.rmtree in dd._copy -> no-ops']
 CUTS = ['on-disk file and shelve storage']
 
-VARIANTS = ['fresh_list', 'fresh_dict', 'fresh_order', 'other_order', 'other_order_load_order']
+VARIANTS = ['fresh_list', 'fresh_dict', 'fresh_order', 'other_order', 'other_order_load_order', 'same']
 
 
 class MemText(io.StringIO):
@@ -96,12 +96,85 @@ class Harness:
         self.sh.set(self.C, 'shutil', types.SimpleNamespace(rmtree=lambda *a, **k: None))
         engine.FORMAT_CONCRETIZE = True
 
+    def run_same(self, names):
+        """dump, then load into the *same* manager (symbolic, with the ledger of external
+        references): by canonicity the loaded roots are the dumped references themselves; the manager
+        stays canonical and its counts grow by exactly the returned handles."""
+        c = engine.CTX
+        N, L = self.N, self.L
+        A = self.A
+        ms = SymMgr(N, 2, L, names=names, with_cache=True, cache_model='assoc', cache_entries=1, tag='s')
+        ms.decl = 'choose'
+        ms.assume_pre()
+        src = ms.install(self.B)
+        src.assert_consistent = lambda *a, **k: True      # debugging walk over the table; INV is a goal
+        asrc = make_autoref(A, src)
+        u1, u2 = z3.Ints('u1 u2')
+        c.assume(ms.present0(u1))
+        c.assume(ms.present0(u2))
+        # the two dumped handles are live: their references are part of the ledger
+        c.assume(z3.Select(ms.ext, z3.If(u1 < 0, -u1, u1)) > 0)
+        c.assume(z3.Select(ms.ext, z3.If(u2 < 0, -u2, u2)) > 0)
+        c.assume(z3.Implies(z3.If(u1 < 0, -u1, u1) == z3.If(u2 < 0, -u2, u2),
+                            z3.Select(ms.ext, z3.If(u1 < 0, -u1, u1)) > 1))
+        c.assume(z3.Select(ms.ext, 1) >= 1)
+
+        def mk(u):
+            f = A.Function.__new__(A.Function)
+            f.node, f.bdd, f.manager = SymInt(u), asrc, src
+            return f
+        f1, f2 = mk(u1), mk(u2)
+
+        def extract(model):
+            case = ms.extract(model)
+            case['args'] = dict(variant='same', perm=list(range(L)), u1=base.ev_int(model, u1),
+                                u2=base.ev_int(model, u2))
+            case['harness'] = 'json_rt'
+            return case
+        exc = out = None
+        try:
+            asrc.dump('f.json', [f1, f2])
+            out = asrc.load('f.json')
+        except Exception as e:
+            exc = e.with_traceback(None)
+        f1.node = f2.node = None
+        ms.read_post()
+        if exc is not None:
+            res = base.discharge([Goal('load_never_raises_for_own_dump', z3.BoolVal(False))], [], extract)
+            return dict(outcome='raised:' + type(exc).__name__ + ':' + str(exc)[:60], goals=res)
+        ok_shape = isinstance(out, list) and len(out) == 2 and all(
+            isinstance(x, A.Function) and x.bdd is asrc for x in out)
+        goals = [Goal('same_container_shape', z3.BoolVal(ok_shape))]
+        ext2 = ms.ext
+        if ok_shape:
+            for j, (uu, h) in enumerate(zip([u1, u2], out)):
+                rz = _z(h.node)
+                goals.append(Goal(f'root_{j}_is_the_dumped_reference', rz == uu))
+                a = z3.If(rz < 0, -rz, rz)
+                ext2 = z3.Store(ext2, a, z3.Select(ext2, a) + 1)
+        goals += [Goal('reduced_ordered', ms.g_inv_struct()),
+                  Goal('unique_table_sound', ms.g_pred_sound()),
+                  Goal('counts_exact_ledger_plus_returned_handles', ms.g_refs(ext=ext2)),
+                  Goal('old_nodes_unchanged', z3.And([z3.Implies(z3.Select(ms.st0.P, k), z3.And(
+                      z3.Select(ms.st.P, k), z3.Select(ms.st.LV, k) == z3.Select(ms.st0.LV, k),
+                      z3.Select(ms.st.LO, k) == z3.Select(ms.st0.LO, k),
+                      z3.Select(ms.st.HI, k) == z3.Select(ms.st0.HI, k))) for k in ms.ids[1:]])),
+                  Goal('order_unchanged', z3.BoolVal(dict(src.vars) == {nm: i for i, nm in enumerate(names)}))]
+        res = base.discharge(goals, [], extract)
+        wit = base.witness(extract)
+        if ok_shape:
+            for h in out:
+                h.node = None            # the path is over: no decref into the dead tables
+        return dict(outcome='loaded:same', goals=res, witness=wit, expect=dict(outcome='returned'))
+
     def run(self):
         c = engine.CTX
         N, L = self.N, self.L
         variant = self.variants[c.choose(len(self.variants), 'variant')]
         self.store.clear()
         names = [chr(97 + i) for i in range(L)]
+        if variant == 'same':
+            return self.run_same(names)
         ms = SymMgr(N, 0, L, names=names, with_cache=False, with_refs=False, tag='s')
         ms.decl = 'choose'
         ms.assume_pre()
@@ -193,6 +266,68 @@ class Harness:
         return dict(outcome='loaded:' + variant, goals=res, witness=wit, expect=dict(outcome='returned'))
 
 
+def replay_same(case):
+    import os
+    import shutil
+    import tempfile
+    B = concrete.fresh_dd()
+    import dd.autoref as A
+    ext = concrete.ext_of(case)
+    bad0 = concrete.check_inv(concrete.install(case), ext)
+    if bad0:
+        return dict(violates=False, invalid_pre=True, detail=str(bad0[:3]))
+    a = case['args']
+    names = case['names']
+    obs = dict(outcome='returned')
+    d = tempfile.mkdtemp(prefix='symdd_json')
+    cwd = os.getcwd()
+    os.chdir(d)
+    try:
+        bdd = concrete.install(case, B)
+        ab = make_autoref(A, bdd)
+        before = {k: tuple(v) for k, v in bdd._succ.items()}
+        tts = {k: concrete.tt_named(bdd, k, names) for k in bdd._succ}
+
+        def mk(u):
+            f = A.Function.__new__(A.Function)
+            f.node, f.bdd, f.manager = u, ab, bdd
+            return f
+        f1, f2 = mk(a['u1']), mk(a['u2'])
+        fn = os.path.join(d, 'f.json')
+        try:
+            ab.dump(fn, [f1, f2])
+            out = ab.load(fn)
+        except Exception as e:
+            return dict(violates=True, key='json/same/raises:' + type(e).__name__,
+                        detail=f'JSON dump + load into the same manager of roots {a["u1"]}, {a["u2"]}: {e!r}',
+                        observed=obs)
+        finally:
+            f1.node = f2.node = None
+        if not (isinstance(out, list) and len(out) == 2 and all(isinstance(x, A.Function) for x in out)):
+            return dict(violates=True, key='json/container', detail=str(out), observed=obs)
+        got = [h.node for h in out]
+        if got != [a['u1'], a['u2']]:
+            return dict(violates=True, key='json/same/different-reference',
+                        detail=f'JSON dump + load into the same manager: roots {[a["u1"], a["u2"]]} came back as {got}',
+                        observed=obs)
+        for k, t in before.items():
+            if tuple(bdd._succ.get(k, ())) != t or concrete.tt_named(bdd, k, names) != tts[k]:
+                return dict(violates=True, key='json/same/changes-node', detail=f'node {k}', observed=obs)
+        held = dict(ext)
+        for h in out:
+            held[abs(h.node)] = held.get(abs(h.node), 0) + 1
+        bad = concrete.check_inv(bdd, held, check_cache=False)
+        for h in out:
+            h.node = None
+        if bad:
+            return dict(violates=True, key='json/same/counts:' + bad[0].split()[0],
+                        detail='JSON dump + load into the same manager: ' + '; '.join(bad[:3]), observed=obs)
+        return dict(violates=False, detail='ok', observed=obs)
+    finally:
+        os.chdir(cwd)
+        shutil.rmtree(d, ignore_errors=True)
+
+
 def replay(case):
     """Real files and real shelve in a private scratch directory."""
     import os
@@ -201,6 +336,8 @@ def replay(case):
     B = concrete.fresh_dd()
     import dd.autoref as A
     import dd._copy as C
+    if case.get('args', {}).get('variant') == 'same':
+        return replay_same(case)
     cs = dict(case['source'])
     cs.pop('ref', None)
     bad0 = concrete.check_inv(concrete.install(cs), None)
